@@ -241,6 +241,20 @@ Section Wallet.
         | _, _ => gen_trace s' rest
         end
     end.
+  (* the statement about the generated keys of a run (C46_generated_are_derived): the events
+     chain from index [lo] to [hi]; every one returns addr (derive m n) for an index n above
+     the previous one, the address was not in the wallet, and every index skipped in between
+     was at that moment the address of an imported row *)
+  Fixpoint gen_chain (m : M) (lo : N) (l : list gen_event) (hi : N) : Prop :=
+    match l with
+    | [] => lo = hi
+    | e :: t =>
+        maxidx (g_pre e) = lo /\ lo < g_idx e /\
+        g_addr e = addr (derive m (g_idx e)) /\
+        ~ In (g_addr e) (addrs (g_pre e)) /\
+        (forall j, lo < j < g_idx e -> In (addr (derive m j)) (imported (g_pre e))) /\
+        gen_chain m (g_idx e) t hi
+    end.
 End Wallet.
 
 Arguments mkSt {A K M P H F Nm}.
@@ -298,3 +312,4 @@ Arguments op_pw {A K P Nm PW}.
 Arguments is_err {A K M}.
 Arguments imported {A K M P H F Nm}.
 Arguments gen_trace {A K M P H F Nm PW}.
+Arguments gen_chain {A K M P H F Nm}.
